@@ -460,16 +460,32 @@ class Library:
         if op is ast.Pow:
             raise OutOfSubset('symbolic power')
         if op is ast.LShift:
+            if not cb and getattr(st, 'approx_int_ops', False):
+                # inside a loop cut: any integer of the same sign and at least the magnitude (over-approximation)
+                if st.branch(y < 0, 'lshift:negative-count'):
+                    raise Raised(ValueError, ('negative shift count',))
+                r = st.fresh_int('shifted')
+                st.assume(z3.And(z3.Implies(x >= 0, r >= x), z3.Implies(x < 0, r <= x)))
+                return SInt(r)
             if not cb:
                 raise OutOfSubset('shift by symbolic amount')
             if int(b) < 0:
                 raise Raised(ValueError, ('negative shift count',))
-            return mk_int(x * (2 ** int(b)))
+            r = mk_int(x * (2 ** int(b)))
+            o = st.get_bits(a)
+            if o is not None:
+                st.set_bits(r, [z3.BoolVal(False)] * int(b) + o[0], o[1])
+            return r
         if op is ast.RShift:
             if not cb:
                 raise OutOfSubset('shift by symbolic amount')
             if int(b) < 0:
                 raise Raised(ValueError, ('negative shift count',))
+            o = st.get_bits(a)
+            if o is not None:
+                nb = o[0][int(b):] if len(o[0]) > int(b) else []
+                r = mk_int(z3.Sum([z3.If(nb[k], 2 ** k, 0) for k in range(len(nb))] + [z3.IntVal(0)]) - z3.If(o[1], 2 ** len(nb), 0))
+                return st.set_bits(r, nb, o[1])
             return mk_int(x / z3.IntVal(2 ** int(b)))
         if op in (ast.BitAnd, ast.BitOr, ast.BitXor):
             return self.bitop(op, a, b)
@@ -486,6 +502,10 @@ class Library:
             bits = [z3.BoolVal(bool((v >> k) & 1)) for k in range(w)]
             return w, bits, z3.BoolVal(v < 0)
         t = I(v)
+        o = st.get_bits(v)
+        if o is not None:
+            ob, sign = o
+            return len(ob), ob, sign
         width = None
         for w in (8, 16, 32, 64):
             if st.must(z3.And(t >= -(2 ** w), t < 2 ** w)):
@@ -518,6 +538,12 @@ class Library:
         if key in st.pack_cache:
             return st.pack_cache[key]
         st.keep.append(t)
+        o = st.get_bits(v)
+        if o is not None:
+            ob, sign = o
+            bits = (ob + [sign] * w)[:w]          # two's complement: sign-extend
+            st.pack_cache[key] = bits
+            return bits
         bits = [st.fresh_bool('bit') for _ in range(w)]
         low = z3.Sum([z3.If(bits[k], 2 ** k, 0) for k in range(w)])
         if st.must(z3.And(t >= 0, t < 2 ** w)):
@@ -529,13 +555,18 @@ class Library:
         return bits
 
     def bitop(self, op, a, b):
+        if getattr(self.st, 'approx_int_ops', False) and op is ast.BitOr and \
+                not isinstance(a, (int, bool)) and not isinstance(b, (int, bool)):
+            return SInt(self.st.fresh_int('ored'))      # inside a loop cut: any integer (over-approximation)
         if op is ast.BitAnd:
             for x, m in ((a, b), (b, a)):
                 if isinstance(m, int) and not isinstance(m, bool) and m >= 0 and not isinstance(x, (int, bool)):
                     # x & constant mask: only the low bits of x matter
                     w = next(c for c in (16, 32, 64, 128, 1 << 20) if m < 2 ** c)   # standard widths: one decomposition per value
                     bits = self.low_bits(x, w)
-                    return mk_int(z3.Sum([z3.If(bits[k], 2 ** k, 0) for k in range(w) if (m >> k) & 1] or [z3.IntVal(0)]))
+                    rb = [bits[k] if (m >> k) & 1 else z3.BoolVal(False) for k in range(w)]
+                    r = mk_int(z3.Sum([z3.If(bits[k], 2 ** k, 0) for k in range(w) if (m >> k) & 1] or [z3.IntVal(0)]))
+                    return self.st.set_bits(r, rb, z3.BoolVal(False))
         wa, ba, sa = self.signed_bits(a)
         wb, bb, sb = self.signed_bits(b)
         w = max(wa, wb)
@@ -544,7 +575,8 @@ class Library:
         f = {ast.BitAnd: z3.And, ast.BitOr: z3.Or, ast.BitXor: z3.Xor}[op]
         rb = [z3.simplify(f(x, y)) for x, y in zip(ba, bb)]
         rs = z3.simplify(f(sa, sb))
-        return mk_int(z3.Sum([z3.If(rb[k], 2 ** k, 0) for k in range(w)]) - z3.If(rs, 2 ** w, 0))
+        r = mk_int(z3.Sum([z3.If(rb[k], 2 ** k, 0) for k in range(w)] + [z3.IntVal(0)]) - z3.If(rs, 2 ** w, 0))
+        return self.st.set_bits(r, rb, rs)
 
     def other_binop(self, op, a, b):
         if isinstance(a, SFloat) or isinstance(b, SFloat):
@@ -675,10 +707,8 @@ class Library:
                 continue
             if signed in ('f', 'd'):
                 out.append(self.unpack_float(chunk, signed))
-            elif signed:
-                out.append(st.unpack_sint(chunk))
             else:
-                out.append(st.unpack_uint(chunk))
+                out.append(st.from_bytes(chunk, bool(signed)))
         return tuple(out)
 
     def unpack_float(self, atoms, kind):
